@@ -116,9 +116,20 @@ func main() {
 					submitted.Store(d.RID, d)
 					ds = append(ds, d)
 				}
-				if err := e.Bulk(ds); err != nil {
-					problem("bulk of writer %d failed: %v", w, err)
-					return
+				// a bulk that does not come back is a deadlock / livelock of the write path (e.g. an appender that keeps
+				// retrying on a fraction that was rotated away): report it and end the process, nothing can be joined
+				done := make(chan error, 1)
+				go func() { done <- e.Bulk(ds) }()
+				select {
+				case err := <-done:
+					if err != nil {
+						problem("bulk of writer %d failed: %v", w, err)
+						return
+					}
+				case <-time.After(120 * time.Second):
+					b, _ := json.Marshal(map[string]any{"n": 0, "what": fmt.Sprintf("bulk %d of writer %d did not return within 120 s while fractions were rotated and sealed (deadlock / livelock of the write path)", b, w)})
+					fmt.Println(string(b))
+					os.Exit(0)
 				}
 			}
 		}(w)
